@@ -222,13 +222,13 @@ func HSMsg(typ byte, body []byte) []byte {
 }
 
 type ClientHello struct {
-	Version     uint16
-	Random      []byte
-	SessionID   []byte
-	Suites      []uint16
-	Compression []byte
-	Extensions  []byte // raw extensions block (without its length), may be nil
-	Ticket      []byte // parsed session ticket extension, if any
+	Version      uint16
+	Random       []byte
+	SessionID    []byte
+	Suites       []uint16
+	Compression  []byte
+	Extensions   []byte // raw extensions block (without its length), may be nil
+	Ticket       []byte // parsed session ticket extension, if any
 	HasTicketExt bool
 }
 
